@@ -14,6 +14,12 @@ CHECKS = {
  "C02": ("Generated grammars with a multi-byte vocabulary (synthetic or truncated cl100k) run against a twin of the same grammar over the 256-byte vocabulary fed the same bytes: every regular token's mask bit must equal byte-by-byte admissibility on the twin, accepting flags must agree, and a random re-tokenisation of the whole history must be accepted by a fresh engine and leave bit-identical observables.",
          "relational oracle (the engine against itself under re-tokenisation); grammars with token references excluded",
          "property-based testing: metamorphic relation (token split invariance) over generated grammars/vocabularies/walks"),
+ "C06": ("Generated schemas over the whole documented keyword set; complete outputs are collected from closer-biased mask walks (finished by a completion search) and from mutants of such outputs that the engine admits as complete (numbers off by one / re-spelt, type swaps, dropped / extra / duplicated / renamed / reordered members, keys re-spelt with escapes); each admitted output must be well-formed RFC 8259 JSON and validate under the reference validator, with the jsonschema crate as second opinion (formats need both to reject).",
+         "reference validator is authoritative for structural/numeric keywords, disagreements with the crate are counted not reported; lenient / coerce_one_of never set",
+         "property-based testing: generated outputs + mutational negative probing against an independent validator"),
+ "C07": ("Schemas from the fully supported subset with instances generated from the schema by recursive descent (kept only if both validators accept), serialised compactly in schema key order and with the whitespace the schema's options allow, tokenised as bytes / greedily / by random segmentation, and fed to the engine: every token must be in the mask, the end state accepting, validate_tokens accepting everything.",
+         "instances come from the harness generator (not from the engine); numbers restricted to plainly printed decimals",
+         "property-based testing: completeness check with generated valid instances (round trip generator -> validator -> engine)"),
  "C08": ("Mostly exhaustive grid of integer/number schemas (all integer pairs in a window with rotating inclusive/exclusive flags, half-open, structured decimal bounds, powers of ten +-1 up to 1e15, 13 multipleOf values x windows) plus random bounds; for every schema a structured literal set (integers around, bound +-10^-k, digit-count neighbours, each in canonical and zero-padded spellings) is decided by exact integer arithmetic and compared with validate_tokens(text+EOS); satisfiability decides whether compilation must succeed.",
          "trusts the exact-arithmetic oracle (values scaled by 10^6 in i128); bounds that do not round-trip through f64 are skipped; 3.0 under integer schemas not asserted",
          "grid enumeration + property-based testing against an exact arithmetic reference"),
